@@ -449,6 +449,11 @@ func genFpProgram(r *Rng, c *Ctx) fpProgram {
 			sz = 1 << 20
 		}
 		where := Pick(r, []string{"local", "local", "server", "server", "server", "missing", "failing"})
+		if r.Chance(8) {
+			// on the server, and at its path in local storage a file of ANOTHER SIZE (what an interrupted copy or a
+			// damaged disk leaves): the one-shot filter discards that file and downloads
+			where = "stale"
+		}
 		p.Objects = append(p.Objects, fpObject{Content: r.Bytes(sz), Where: where})
 	}
 	n := 1 + r.Intn(12)
@@ -574,6 +579,11 @@ func runFpProgram(c *Ctx, pi int, p fpProgram) (mlines, mimpl []string) {
 			os.WriteFile(pth, o.Content, 0o644)
 			local[oid] = o.Content
 		}
+		if o.Where == "stale" {
+			pth := filepath.Join(dir, ".git", "lfs", "objects", oid[0:2], oid[2:4], oid)
+			os.MkdirAll(filepath.Dir(pth), 0o755)
+			os.WriteFile(pth, append(append([]byte(nil), o.Content...), 'x'), 0o644)
+		}
 	}
 	sess, prob := startFilterProcess(c, dir, p.Delay)
 	if prob != "" {
@@ -681,6 +691,9 @@ func runFpProgram(c *Ctx, pi int, p fpProgram) (mlines, mimpl []string) {
 			obj := p.Objects[oi]
 			_, isLocal := local[ptr.Oid]
 			where := obj.Where
+			if where == "stale" {
+				where = "server" // not local: a file of the wrong size is not the object
+			}
 			if isLocal {
 				where = "local"
 			}
